@@ -105,6 +105,8 @@ def known_match(prop_id: str, sig: str, known: list[dict]) -> dict | None:
 # ----------------------------------------------------------------------------- batch (inside a batch interpreter)
 
 def parse_indices(spec: str) -> list[int]:
+    if ":" not in spec:
+        return [int(x) for x in spec.split(",") if x != ""]
     a, b, step = (int(x) for x in spec.split(":"))
     return list(range(a, b, step))
 
@@ -239,8 +241,14 @@ def sweep_stale_scratch() -> None:
                 pass
 
 
+def shutil_rm(path) -> None:
+    import shutil
+    shutil.rmtree(path, ignore_errors=True)
+
+
 def launch(prop_id: str, tier: str, seed: int, runs: int | None = None, hashseeds: list[int] | None = None,
-           nbatch: int | None = None, outdir: Path | None = None, wall_limit: float | None = None):
+           nbatch: int | None = None, outdir: Path | None = None, wall_limit: float | None = None,
+           only: list[int] | None = None):
     """Start nbatch batch interpreters, wait, return (outputs, harness_errors)."""
     sweep_stale_scratch()
     nbatch = nbatch or NBATCH
@@ -254,7 +262,7 @@ def launch(prop_id: str, tier: str, seed: int, runs: int | None = None, hashseed
         out = outdir / f"batch-{b}.json"
         log = outdir / f"batch-{b}.log"
         cmd = [sys.executable, str(VERIF / "vsim" / "main.py"), "batch", prop_id, "--seed", str(seed),
-               "--tier", tier, "--indices", f"{b}:{runs}:{nbatch}", "--out", str(out)]
+               "--tier", tier, "--indices", ",".join(map(str, only)) if only else f"{b}:{runs}:{nbatch}", "--out", str(out)]
         lf = open(log, "w")
         benv = batch_env(hs)
         benv.setdefault("VSIM_REPLAY_DIR", str(outdir / "replays"))   # the launcher keeps only what it reports
@@ -343,7 +351,36 @@ def check(prop_id: str, tier: str, seed: int) -> int:
             violations.append(f)
         else:
             herr.append({"error": f"failure did not reproduce on replay: {sig}", "replay": f["replay"], "tail": tail})
+    # in-check determinism sample: the indices of batch 0 once more, in a new interpreter with the same hash
+    # seed but alone (different batch layout): harness decisions (H) and results (C) must be identical
+    det = {"indices": 0, "H_mismatches": 0, "C_mismatches": 0}
+    if outputs and not os.environ.get("VSIM_NO_DETCHECK"):
+        first = min(outputs, key=lambda o: o["indices"][0] if o["indices"] else 1 << 30)
+        sample = [r["index"] for r in first["runs"]][:getattr(prop, "DET_SAMPLE", 4)]
+        if sample:
+            saved = os.environ.get("VSIM_MIN_BUDGET")
+            os.environ["VSIM_MIN_BUDGET"] = "0"     # the sample only compares digests
+            try:
+                o2, herr2, outdir2 = launch(prop_id, tier, seed, runs=max(sample) + 1, hashseeds=[first["hashseed"]], nbatch=1,
+                                            outdir=Path(str(outdir) + "-det"), only=sample)
+            finally:
+                if saved is None:
+                    os.environ.pop("VSIM_MIN_BUDGET", None)
+                else:
+                    os.environ["VSIM_MIN_BUDGET"] = saved
+            shutil_rm(outdir2)
+            again = {r["index"]: r for o in o2 for r in o["runs"]}
+            ref = {r["index"]: r for r in first["runs"]}
+            for i in sample:
+                det["indices"] += 1
+                if i not in again or again[i]["H"] != ref[i]["H"]:
+                    det["H_mismatches"] += 1
+                elif again[i]["C"] != ref[i]["C"]:
+                    det["C_mismatches"] += 1
+            if det["H_mismatches"] or det["C_mismatches"] or herr2:
+                herr.append({"error": "determinism sample mismatch", "detail": det, "harness": herr2[:1]})
     ev = prop.evidence(outputs, tier, seed)
+    ev.setdefault("coverage", {})["determinism_sample"] = det
     ev.setdefault("coverage", {})
     cov = ev["coverage"]
     cov["known_findings_seen"] = known_seen
